@@ -505,10 +505,19 @@ func c18CheckMating(c *Ctx, entries []c18Entry) {
 		}
 		zTop := bolt.BoundingBox().Max.Z
 		zc := zTop - Lt/2    // centre of the threaded part (observed: top of the bolt minus half the thread length)
-		ax := 0.3 * t.Radius // off the axis: the screw profile has its base edge on the axis (distance 0 there)
+		// off the axis (the screw profile has its base edge on the axis: distance 0 there) but inside the thread root that is
+		// left after the tolerance; a tolerance that consumes the core (tiny threads with a tolerance of a whole pitch) leaves
+		// nothing to locate and nothing to mate
+		root := t.Radius - tb - 0.7*P
+		if root < 0.1*t.Radius {
+			c.Count("mate_obj_skipped_tolerance_consumes_core", 1)
+			return
+		}
+		ax := 0.5 * root
 		if !(bolt.Evaluate(v3.Vec{X: ax, Z: zTop - 1e-3*P}) < 0 && bolt.Evaluate(v3.Vec{X: ax, Z: zTop + 1e-3*P}) > 0 && nh > 0 &&
 			bolt.Evaluate(v3.Vec{X: ax, Z: zc - Lt/2 + 1e-3*P}) < 0) {
-			c18Inconcl(c, fmt.Sprintf("obj.Bolt %s: cannot locate the threaded part from the bounding box", en.Name))
+			c18Inconcl(c, fmt.Sprintf("obj.Bolt %s: cannot locate the threaded part from the bounding box (style %s tol %g total %g shank %g: f(top-)=%g f(top+)=%g f(thread start)=%g)", en.Name, style, tb, shank+Lt, shank,
+				bolt.Evaluate(v3.Vec{X: ax, Z: zTop - 1e-3*P}), bolt.Evaluate(v3.Vec{X: ax, Z: zTop + 1e-3*P}), bolt.Evaluate(v3.Vec{X: ax, Z: zc - Lt/2 + 1e-3*P})))
 			return
 		}
 		advMax := (Lt - nh) / 2
